@@ -78,6 +78,19 @@ def step (st : St) (ws : List String) : St × String :=
       | some b => (st, hx b)
       | none => (st, "err")
     | _, _ => bad
+  | "eks" :: s :: i :: cs :: x :: cth :: enc :: _n :: rest =>
+    -- a real commit of a real group: previous init secret, commit secret ("-" = no update path), new context,
+    -- its confirmed transcript hash, PSK list in commit order; `enc` = 0: the member's encryption secret is consumed already
+    let cs? : Option (Option ByteArray) := if cs = "-" then some none else (unhx cs).map some
+    match suiteOf s, unhx i, cs?, unhx x, unhx cth, pskInputs rest with
+    | some s, some i, some cs, some x, some cth, some ins =>
+      match epochOfCommit (prim s) i cs x ins with
+      | some o =>
+        let l := [hx o.resumption, hx o.senderData, (if enc = "1" then hx o.encryption else "-"), hx o.exporter,
+          hx o.authentication, hx o.external, hx o.membership, hx o.init, hx (confirmationTag (prim s) o.confirmationKey cth)]
+        (st, " ".intercalate l)
+      | none => (st, "err")
+    | _, _, _, _, _, _ => bad
   | ["ctag", s, k, h] =>
     match suiteOf s, unhx k, unhx h with
     | some s, some k, some h => (st, hx (confirmationTag (prim s) k h))
